@@ -6,10 +6,11 @@ CONSTANTS
   RMaxChunks = 2
   Buf = 2
   MaxFaults = 1
-  FaultKinds = {"cut", "relay", "remote"}
+  FaultKinds = {"cut", "relay", "remote", "submitter"}
   Scenarios = {"local", "remote"}
   AlReader = FALSE
   AlOffsets = {0}
+  ReadAhead = 2
   A_CreateBeforePoll = TRUE
   KF_CancelNotComplete = FALSE
   DumpLocal = "local_vectors.ndjson"
